@@ -87,6 +87,11 @@ func c06Pair(x *Ctx) {
 					simrt.Sleep(time.Duration(1+x.Choose("gap", 5)) * 20 * time.Millisecond)
 				}
 				id := base[e.name] + p.inCallback + i
+				size := 0
+				if x.Feat(FeatMoreInputs) {
+					// datagrams around and far beyond the websocket buffer / SHIP fragment size
+					size = []int{0, 0, 0, 900, 1100, 5000, 70000}[x.S.ChooseBiased("datagram-size", 7, 0.5)]
+				}
 				if e.name == "A" && stallFor > 0 && i == stallAfter {
 					x.Probe("transport-stall")
 					x.Ev("stall", "A", stallFor.String(), 0)
@@ -94,7 +99,7 @@ func c06Pair(x *Ctx) {
 					x.S.After(stallFor, "unstall A", "", func() { s.A.nc.SetStall(false) })
 				}
 				x.Ev("sent", e.name, "task", id)
-				w.WriteShipMessageWithPayload(spinePayload(id))
+				w.WriteShipMessageWithPayload(spinePayloadSized(id, size))
 			}
 		})
 	}
